@@ -45,6 +45,9 @@ import (
 	"github.com/luraproject/lura/v2/proxy"
 	krakendgin "github.com/luraproject/lura/v2/router/gin"
 	"github.com/luraproject/lura/v2/router/mux"
+	"github.com/luraproject/lura/v2/transport/http/client"
+	clientplugin "github.com/luraproject/lura/v2/transport/http/client/plugin"
+	"github.com/luraproject/lura/v2/transport/http/server"
 
 	"verif/harness/internal/emit"
 	"verif/harness/internal/out"
@@ -81,6 +84,13 @@ type spec struct {
 	// traffic is C16's); > 0: its explicit shadow_timeout, -1: none configured (it defaults to the
 	// backend timeout)
 	shadow time.Duration
+	// mux only: the handler is given a RequestBuilder that takes this long (the endpoint clock must
+	// already be running while it works)
+	slowRB time.Duration
+	// http stubs only: the backends are reached through the client-executor plugin adapter
+	// (transport/http/client/plugin) with a plugin registered in this process that serves the
+	// request under the context it is handed
+	plugin bool
 	group  string
 	// how the case is run (not part of the input the model sees)
 	stress time.Duration // > 0: hammer one instance with this request for that long first (child process)
@@ -102,6 +112,12 @@ func (s spec) canon() string {
 	// the same request after a different history / among concurrent ones is another test
 	if s.shadow != 0 {
 		fmt.Fprintf(&b, "|shadow%d", s.shadow)
+	}
+	if s.slowRB > 0 {
+		fmt.Fprintf(&b, "|rb%d", s.slowRB)
+	}
+	if s.plugin {
+		b.WriteString("|plugin")
 	}
 	if s.seqID > 0 {
 		fmt.Fprintf(&b, "|seq%d.%d", s.seqID, s.step)
@@ -147,6 +163,12 @@ func (s spec) js() map[string]interface{} {
 	}
 	m := map[string]interface{}{"level": s.level, "sequential": s.seq, "timeout_ns": int64(s.T), "parent_deadline_ns": int64(s.parent),
 		"http_executor_stubs": s.http, "no_op": s.noop, "backends": bl, "group": s.group}
+	if s.slowRB > 0 {
+		m["request_builder_takes_ns"] = int64(s.slowRB)
+	}
+	if s.plugin {
+		m["client_executor_plugin"] = true
+	}
 	if s.shadow != 0 {
 		m["built_by_shadow_factory_with_shadow_timeout_ns"] = int64(s.shadow) // -1: not configured
 	}
@@ -184,7 +206,7 @@ func (s spec) dangerous() bool {
 
 // what one pipeline instance is built from; steps of a reuse sequence must agree on it
 func (s spec) shapeKey() string {
-	k := fmt.Sprintf("%s|%v|%d|%v|%v|%d", s.level, s.seq, s.T, s.http, s.noop, s.shadow)
+	k := fmt.Sprintf("%s|%v|%d|%v|%v|%d|%v", s.level, s.seq, s.T, s.http, s.noop, s.shadow, s.plugin)
 	for _, a := range s.backends {
 		k += fmt.Sprintf("|%d", len(a))
 	}
@@ -296,6 +318,7 @@ type recorder struct {
 	bodies    []*body
 	firstSlow int             // index of the first backend without an Answer attempt (sequential: later ones are not called "at once")
 	stop      context.Context // the context handed to the pipeline / request
+	rbIn      atomic.Int64    // when the handler's request builder was entered (ns after t0; 0: not seen)
 	quiet     bool            // stress loop: behave, record nothing
 	midTaint  atomic.Bool     // a Mid attempt did not answer where the model places it (slow machine)
 }
@@ -479,8 +502,47 @@ func (in *instance) lookup(ids []string) *recorder {
 	return nil
 }
 
+// every recorder by case id (the client plugin is registered once per process and has no
+// instance to ask)
+var allRecs sync.Map
+
+const pluginName = "c04-forward"
+
+// the in-process client plugin: serves the request under the context the adapter attached to it
+func pluginHandler(w http.ResponseWriter, req *http.Request) {
+	v, ok := allRecs.Load(req.Header.Get(caseHeader))
+	be, err := strconv.Atoi(strings.TrimPrefix(req.URL.Path, "/b"))
+	if !ok || err != nil {
+		w.WriteHeader(http.StatusBadGateway)
+		return
+	}
+	r := v.(*recorder)
+	ctx := req.Context()
+	kind, _ := r.play(ctx, be, r.enter(ctx, be))
+	if kind != 0 {
+		w.WriteHeader(http.StatusInternalServerError)
+		return
+	}
+	w.Header().Set("Content-Type", "application/json")
+	fmt.Fprintf(w, `{"k%d":%d}`, be, be)
+}
+
+func init() {
+	clientplugin.RegisterClient(pluginName, func(context.Context, map[string]interface{}) (http.Handler, error) {
+		return http.HandlerFunc(pluginHandler), nil
+	})
+}
+
 func (in *instance) backendFactory(httpStubs bool) proxy.BackendFactory {
 	return func(b *config.Backend) proxy.Proxy {
+		if _, viaPlugin := b.ExtraConfig[clientplugin.Namespace]; viaPlugin && b.URLPattern != shadowPattern {
+			exec := clientplugin.HTTPRequestExecutor(logging.NoOp, func(*config.Backend) client.HTTPRequestExecutor {
+				return func(context.Context, *http.Request) (*http.Response, error) {
+					return nil, errors.New("client plugin not injected")
+				}
+			})(b)
+			return proxy.NewHTTPProxyWithHTTPExecutor(b, exec, b.Decoder)
+		}
 		if b.URLPattern == shadowPattern {
 			// the shadow backend: answers at once, is not observed
 			return func(context.Context, *proxy.Request) (*proxy.Response, error) {
@@ -591,6 +653,9 @@ func newInstance(s spec) *instance {
 		if s.noop {
 			b.Encoding = encoding.NOOP
 		}
+		if s.plugin {
+			b.ExtraConfig = config.ExtraConfig{clientplugin.Namespace: map[string]interface{}{"name": pluginName}}
+		}
 		ep.Backend = append(ep.Backend, b)
 	}
 	if s.shadow != 0 {
@@ -624,7 +689,22 @@ func newInstance(s spec) *instance {
 		e.GET("/x", krakendgin.EndpointHandler(ep, p))
 		in.handler = e
 	case "LMux":
-		in.handler = mux.EndpointHandler(ep, p)
+		// the default request builder, observed (and slowed down when the case says so)
+		rb := func(r *http.Request, queryString, headersToSend []string) *proxy.Request {
+			if rec := in.lookup(r.Header[caseHeader]); rec != nil {
+				rec.rbIn.CompareAndSwap(0, int64(time.Since(rec.t0))+1)
+				if d := rec.s.slowRB; d > 0 {
+					t := time.NewTimer(d)
+					select {
+					case <-t.C:
+					case <-rec.release:
+						t.Stop()
+					}
+				}
+			}
+			return mux.NewRequest(r, queryString, headersToSend)
+		}
+		in.handler = mux.CustomEndpointHandlerWithHTTPError(rb, server.DefaultToHTTPError)(ep, p)
 	}
 	return in
 }
@@ -670,6 +750,7 @@ func runOn(in *instance, s spec) *result {
 	res := &result{s: s, rec: rec}
 	id := strconv.FormatInt(caseSeq.Add(1), 10)
 	in.recs.Store(id, rec)
+	allRecs.Store(id, rec) // kept: an attempt may start after the pipeline has returned
 	p, handler := in.p, in.handler
 	base, cancelBase := context.WithCancel(context.Background())
 	defer cancelBase()
@@ -1385,6 +1466,7 @@ type obsData struct {
 	Panic      string     `json:"panic"`
 	BatchLevel bool       `json:"batch_level"`
 	Orphans    int64      `json:"orphans"`
+	RbIn       int64      `json:"rb_in"` // 0: the request builder was not seen
 }
 
 func (r *result) data() obsData {
@@ -1399,7 +1481,7 @@ func (r *result) data() obsData {
 		return calls[i].inv < calls[j].inv
 	})
 	o := obsData{Returned: r.returned, Ret: int64(r.ret), Keys: r.keys, Leaked: r.leaked, Released: rec.released.Load(),
-		Tainted: r.tainted || rec.midTaint.Load(), Panic: r.panicked, BatchLevel: r.batchLevel}
+		Tainted: r.tainted || rec.midTaint.Load(), Panic: r.panicked, BatchLevel: r.batchLevel, RbIn: rec.rbIn.Load()}
 	for _, c := range calls {
 		o.Calls = append(o.Calls, callData{Be: c.be, Inv: int64(c.inv), HasDl: c.hasDl, Dl: int64(c.dl), DoneAfter: c.doneAfter, Depth: c.depth, ChainDone: c.chainDone})
 	}
@@ -1435,11 +1517,17 @@ func emitCase(w *out.Writer, s spec, r obsData) {
 			kl = append(kl, k)
 		}
 	}
-	obs := fmt.Sprintf("{| o_calls := %s; o_returned := %s; o_ret := %s; o_keys := %s; o_leaked := %s; o_released := %s; o_tainted := %s |}",
-		emit.List(cl), emit.Bool(r.Returned), emit.Z(r.Ret), emit.NatList(kl), emit.Nat(r.Leaked), emit.Bool(r.Released), emit.Bool(r.Tainted))
+	rb := "None"
+	var rbj interface{}
+	if r.RbIn > 0 {
+		rb = emit.Some(emit.Z(r.RbIn - 1))
+		rbj = r.RbIn - 1
+	}
+	obs := fmt.Sprintf("{| o_calls := %s; o_returned := %s; o_ret := %s; o_keys := %s; o_leaked := %s; o_released := %s; o_rb := %s; o_tainted := %s |}",
+		emit.List(cl), emit.Bool(r.Returned), emit.Z(r.Ret), emit.NatList(kl), emit.Nat(r.Leaked), emit.Bool(r.Released), rb, emit.Bool(r.Tainted))
 	term := emit.App("Case", s.coq(), emit.Z(int64(slack)), obs)
 	js := map[string]interface{}{"input": s.js(), "observed": map[string]interface{}{"calls": cj, "returned": r.Returned, "returned_ns": r.Ret,
-		"keys": kl, "leaked": r.Leaked, "released_by_watchdog": r.Released, "tainted": r.Tainted, "panic": r.Panic, "leak_seen_with_whole_batch_only": r.BatchLevel}, "slack_ns": int64(slack)}
+		"keys": kl, "leaked": r.Leaked, "released_by_watchdog": r.Released, "tainted": r.Tainted, "panic": r.Panic, "leak_seen_with_whole_batch_only": r.BatchLevel, "request_builder_entered_ns": rbj}, "slack_ns": int64(slack)}
 	nontrivial := s.level != "LProxy" || s.parent != 0
 	for _, a := range s.backends {
 		for _, x := range a {
@@ -1492,6 +1580,12 @@ func emitCase(w *out.Writer, s spec, r obsData) {
 	}
 	if s.shadow != 0 {
 		w.Count("built-by-shadow-factory")
+	}
+	if s.slowRB > 0 {
+		w.Count("slow-request-builder")
+	}
+	if s.plugin {
+		w.Count("client-executor-plugin")
 	}
 	w.Add(term, js, "", s.canon(), nontrivial)
 }
@@ -1685,6 +1779,28 @@ func generate(cfg out.Config, r *rng.R) []spec {
 		add(spec{level: "LMux", T: TW, shadow: sh, backends: [][]beh{{bHang, bHang}, {M}}, group: "shadow-factory"})
 		add(spec{level: "LGin", T: TW, shadow: sh, backends: [][]beh{{M}, {bFail}, {bAnswer}}, group: "shadow-factory"})
 	}
+	// 1a''. a mux handler whose RequestBuilder takes a fifth of the timeout (the clock must be
+	// running meanwhile), and backends reached through the client-executor plugin adapter
+	for _, bs := range [][][]beh{
+		{{bAnswer}}, {{bHang}}, {{bAnswer}, {bHang}}, {{bHang, bHang}}, {{bAnswer, bHang}, {bFail}}, {{bLate}, {bAnswer}},
+	} {
+		cp := func() [][]beh {
+			c := make([][]beh, len(bs))
+			for i := range bs {
+				c[i] = append([]beh(nil), bs[i]...)
+			}
+			return c
+		}
+		add(spec{level: "LMux", T: T1, slowRB: T1 / 5, backends: cp(), group: "slow-request-builder"})
+		add(spec{level: "LMux", T: T2, slowRB: T2 / 5, seq: len(bs) > 1, backends: cp(), group: "slow-request-builder"})
+		for _, lv := range levels {
+			add(spec{level: lv, T: T1, http: true, plugin: true, backends: cp(), group: "client-plugin"})
+		}
+		add(spec{level: "LProxy", T: T1, http: true, plugin: true, parent: T1 / 2, backends: cp(), group: "client-plugin"})
+	}
+	add(spec{level: "LProxy", T: T1, http: true, plugin: true, seq: true, backends: [][]beh{{bAnswer}, {bHang}}, group: "client-plugin"})
+	add(spec{level: "LMux", T: T1, http: true, plugin: true, seq: true, backends: [][]beh{{bFail}, {bAnswer}}, group: "client-plugin"})
+
 	// 1b. instance reuse, the telling orders: ONE pipeline / handler instance serves the requests
 	// of a sequence one after the other (a context, timer or cancel function created once per
 	// endpoint instead of once per request shows at the second request)
